@@ -179,7 +179,7 @@ func c08Fixed(c *Ctx) ([]*zr.Program, []string) {
 }
 
 func checkC08(c *Ctx) {
-	c.rule = "programs: (a) fixed families: every (declared arity 0..4 x given argument count 0..5 x call form) with a display probe in every argument and a display as first body statement (a count mismatch must be an error with no body effect); object families (independent instances, default-property copies, constructor/method arity, unknown method/property/function, 其 outside a method), text-method chains, self and mutual recursion to depth 5000; (b) random programs with 0-3 methods (arity 0-3, recursion), 0-2 types (default properties incl. collections, constructors, methods using 其), calls nested in arguments, 得到 on both call forms. Oracle: reference evaluator (value + ordered display trace). distinct_nontrivial = distinct (family / feature set, outcome kind)"
+	c.rule = "hand-written multi-file programs: objects of an imported type created by the importer (constructor uses its module's variables / helpers, importer has names of the same spelling, selective import, factory vs direct creation, thrown imported exception type, relay module); programs: (a) fixed families: every (declared arity 0..4 x given argument count 0..5 x call form) with a display probe in every argument and a display as first body statement (a count mismatch must be an error with no body effect); object families (independent instances, default-property copies, constructor/method arity, unknown method/property/function, 其 outside a method), text-method chains, self and mutual recursion to depth 5000; (b) random programs with 0-3 methods (arity 0-3, recursion), 0-2 types (default properties incl. collections, constructors, methods using 其), calls nested in arguments, 得到 on both call forms. Oracle: reference evaluator (value + ordered display trace). distinct_nontrivial = distinct (family / feature set, outcome kind)"
 	c.assumptions = []string{"method bodies use only their own parameters/locals and module-level definitions (U1)", "何为 getters and 此 are not exercised (U5)"}
 	rng := c.Rand("c08")
 	progs, shapes := c08Fixed(c)
@@ -238,6 +238,27 @@ func checkC08(c *Ctx) {
 			if got != hps[k].want {
 				c.Violation("hand:"+hps[k].name, fmt.Sprintf("%s: outcome %s %v, expected %s\nprogram:\n%s", hps[k].name, got, resp.Err, hps[k].want, hps[k].src), map[string]interface{}{"req": req})
 			}
+		})
+	}
+	// objects of a type that another module defines: 新建 in the importer initialises them with the
+	// constructor as its module wrote it (that module's variables, helpers, constants), 其 is the new
+	// object, methods and constructor agree, and the importer's own names of the same spelling play
+	// no part
+	{
+		lib := "令费率 = 10\n如何折算？\n\t输入数\n\t输出 数 * 费率\n定义账户：\n\t其名 = “无”\n\t其余额 = 0\n\t其历史 = 【】\n\t如何存入？\n\t\t输入数\n\t\t其余额 = 其余额 + （折算：数）\n\t\t以其历史（后增：数）\n\t\t输出 其余额\n如何新建账户？\n\t输入名、数\n\t其名 = 名\n\t其余额 = 数 * 费率\n如何开户？\n\t输入名、数\n\t输出（新建账户：名、数）\n" +
+			"定义欠费异常：\n\t其内容 = “”\n\t其额 = 0\n如何新建欠费异常？\n\t输入数\n\t其额 = （折算：数）\n\t其内容 = “欠费”\n"
+		mf := func(main string) map[string]string { return map[string]string{"main.zn": main, "库.zn": lib} }
+		c.runHandFiles("imported-type", []handFiles{
+			{"constructor-uses-module-variable", mf("导入“库”\n令户 = （新建账户：“甲”、5）\n输出【户之名，户之余额】\n"), `list[text("甲"),num(50)]`},
+			{"importer-has-variable-of-the-same-name", mf("导入“库”\n令费率 = 2\n令户 = （新建账户：“甲”、5）\n以户（存入：1）\n输出【户之余额，费率】\n"), `list[num(60),num(2)]`},
+			{"importer-has-method-of-the-same-name", mf("导入“库”之账户\n如何折算？\n\t输入数\n\t输出 数 * 1000\n令户 = （新建账户：“甲”、5）\n以户（存入：1）\n输出【户之余额，（折算：1）】\n"), `list[num(60),num(1000)]`},
+			{"selective-import-of-the-type-only", mf("导入“库”之账户\n令户 = （新建账户：“乙”、3）\n输出【户之名，户之余额，以户（存入：2）】\n"), `list[text("乙"),num(30),num(50)]`},
+			{"factory-and-direct-creation-agree", mf("导入“库”\n令甲 = （新建账户：“子”、4）\n令乙 = （开户：“子”、4）\n输出【甲之余额，乙之余额，甲之名 为 乙之名】\n"), `list[num(40),num(40),bool(true)]`},
+			{"two-objects-independent", mf("导入“库”\n令甲 = （新建账户：“子”、1）\n令乙 = （新建账户：“丑”、2）\n以甲（存入：3）\n输出【甲之余额，乙之余额，甲之历史，乙之历史】\n"), `list[num(40),num(20),list[num(3)],list[]]`},
+			{"thrown-imported-exception-type", mf("导入“库”\n如何试？\n\t抛出欠费异常：7！\n\n\t拦截欠费异常：\n\t\t输出【其内容，其额】\n输出（试）\n"), `list[text("欠费"),num(70)]`},
+			{"created-inside-importer-method-and-loop", mf("导入“库”\n如何批量？\n\t输入数\n\t令和 = 0\n\t以序遍历【1，2，3】：\n\t\t令户 = （新建账户：“批”、数 + 序）\n\t\t和 = 和 + 户之余额\n\t输出 和\n输出（批量：1）\n"), `num(90)`},
+			{"constructor-arity-through-importer", mf("导入“库”\n如何试？\n\t令户 = （新建账户：“甲”）\n\t输出 户之余额\n\n\t拦截异常：\n\t\t输出 “refused”\n输出（试）\n"), `text("refused")`},
+			{"imported-through-relay-module", map[string]string{"main.zn": "导入“中转”\n输出（经手：6）\n", "中转.zn": "导入“库”\n令费率 = 3\n如何经手？\n\t输入数\n\t令户 = （新建账户：“转”、数）\n\t输出【户之余额，费率】\n", "库.zn": lib}, `list[num(60),num(3)]`},
 		})
 	}
 	c.runRefCases("call", progs, inputs, shapes, nil, nil)
